@@ -84,6 +84,10 @@ def run(ctx):
         ctx.proof_breaks.append({"theorem": "translator c03_xsd (XSD outside the supported subset)", "where": str(e)[:300],
                                  "log": ""})
         ctx.log(f"xsd translator refused the schema: {e}")
+        stale = os.path.join(c03_xsd.GEN, "Xsd2020a.v")
+        for ext in (".v", ".vo", ".vos", ".vok", ".glob"):  # never prove anything about a table that no longer
+            if os.path.exists(stale[:-2] + ext):            # mirrors the shipped file
+                os.remove(stale[:-2] + ext)
     if changed:
         ctx.notes.append(f"regenerated {changed} from /repo")
     ctx.build_props(extra_targets=["Corr/C01.vo"])
